@@ -9,20 +9,15 @@ THEOREMS = [
     "GoaktVerif.C21.ch_stable",
     "GoaktVerif.C21.fanout_exactly_once",
     "GoaktVerif.C21.fanout_only_routees",
-    "GoaktVerif.C21.rrIndex_succ",
-    "GoaktVerif.C21.rrIndex_wrap",
-    "GoaktVerif.C21.rr_fixed_order",
-    "GoaktVerif.C21.witnessOrder_run",
-    "GoaktVerif.C21.witnessWrap_run",
-    "GoaktVerif.C21.C21_refuted",
-    "GoaktVerif.C21.C21_refuted_order",
-    "GoaktVerif.C21.C21_partial",
+    "GoaktVerif.C21.available_sorted",
+    "GoaktVerif.C21.rr_holds",
+    "GoaktVerif.C21.C21_holds",
 ]
 INPKG = ["actor/zz_verif_c21.go"]
 TIMEOUT = 900
 MANIFEST = {
-    "level_text": "Kernel-checked theorems over a model of actor/router.go as it is (Go map iteration order is an input of every step). Consistent hash ring: lookup returns the owner of the successor vnode (ring_lookup_succ), does not depend on the order the members come out of the map (ring_order_irrelevant), and rebuilding the ring without a member only moves keys that member owned (ring_minimal_disruption) — for every vnode set with pairwise distinct hashes, any hasher; equal keys go to the same routee for every iteration order and random draw while ring, map and owner are unchanged (ch_stable). Fan-out tells every running routee exactly once for every iteration order (fanout_exactly_once). Round-robin: the stated law is REFUTED twice with concrete witnesses (C21_refuted: index -1 and a lost message at the uint32 wrap, rrIndex_wrap for every pool >= 2; C21_refuted_order: the slice is rebuilt from a Go map per message, two messages in a row reach the same routee); the law is proved under the guards fixed order + no wrap + all routees running (rr_fixed_order, by induction over any number of messages).",
-    "level_note": "Tie: differential only (go2lean cannot reach the index expression, it is not a `return a[e]`). The real consistentHashRing is driven in-package with a table hasher (all hashes chosen by the generator, including collisions and wrap-around positions) and compared with the Lean ring; with the default xxh3 hasher the harness reports every vnode/key hash and the Lean ring re-computes each lookup (judge). A real router actor in a real actor system is driven in-package on the caller's goroutine while the router is idle (availableRoutees + dispatchToRoutees with a ReceiveContext whose self is the router, counter preset through an accessor): the slice order of every message is OBSERVED, the Lean model supplies index / map contents / stopped routees. Not covered: the mailbox path from Tell(router, Broadcast) to handleBroadcast, scatter-gather and tail-chopping routers, random routing, scale up/down, restart/resume directives; hash collisions (hypothesis of the ring theorems, checked on every case).",
+    "level_text": "Kernel-checked theorems over a model of actor/router.go (Go map iteration order is an input of every step). Round-robin: for every cursor value (hence any number of earlier messages; the cursor is kept modulo the pool size, nothing wraps) and every sequence of map iteration orders, message j goes to routee sigma[(cursor+j) mod n] of the sorted routee list: cyclic, nothing dropped (rr_holds, induction over any number of messages; available_sorted: the slice does not depend on the iteration order). Fan-out tells every running routee exactly once (fanout_exactly_once). Consistent hash: lookup returns the owner of the successor vnode (ring_lookup_succ), independent of the order the members come out of the map (ring_order_irrelevant); rebuilding the ring without a member only moves keys that member owned (ring_minimal_disruption), for every vnode set with pairwise distinct hashes and any hasher; equal keys go to the same routee while ring, map and owner are unchanged (ch_stable). C21_holds states the full property.",
+    "level_note": "Tie: differential only (go2lean cannot translate routeByStrategy: switch statement and method calls). The model sorts the slice by routee index, the code by routee ID string: identical for the pools of at most 10 routees the harness uses. The real consistentHashRing is driven in-package with a table hasher (all hashes chosen by the generator, including collisions and wrap-around positions) and compared with the Lean ring; with the default xxh3 hasher the harness reports every vnode/key hash and the Lean ring re-computes each lookup (judge). A real router actor in a real actor system is driven in-package on the caller's goroutine while the router is idle (availableRoutees + dispatchToRoutees with a ReceiveContext whose self is the router, counter preset through an accessor): the slice order of every message is OBSERVED, the Lean model supplies index / map contents / stopped routees. Not covered: the mailbox path from Tell(router, Broadcast) to handleBroadcast, scatter-gather and tail-chopping routers, random routing, scale up/down, restart/resume directives; hash collisions (hypothesis of the ring theorems, checked on every case).",
     "technique": "Lean 4 proofs (induction, successor characterisation of sort+binary-search) over a hand model + model/implementation differential on the real ring and a real router actor + spec oracle",
 }
 TRUSTED = [
@@ -72,8 +67,8 @@ def compare(case, impl, model):
                     order, ids, dead = _ints(fa.get("o", "")), _ints(fb.get("s", "")), set(_ints(fb.get("d", "")))
                 except ValueError:
                     return f"unparsable token {a!r} / {b!r}"
-                if sorted(order) != ids:
-                    return f"slice {order} is not a permutation of the map {ids} the model expects ({a} vs {b})"
+                if order != ids:
+                    return f"slice {order} is not the sorted list of running routees {ids} the model expects ({a} vs {b})"
                 if fa.get("z") != fb.get("z"):
                     return f"map size after the call differs ({a} vs {b})"
                 i = fb.get("i")
